@@ -141,10 +141,19 @@ Next ==
              /\ path' = Append(path, i)
              /\ (Export => PrintT("EDGE " \o ToJson([p |-> path, i |-> i, ret |-> r.ret, to |-> ToJ(S, T, r.st)])))
 
+\* C09: expected answers of every operation on an INVALID (nil / read-only empty) message of
+\* each type of the schema: reads answer as the empty message, writes panic
+\* (reads obtain list/map views through Get; Clear is left out: the two reference
+\*  implementations disagree on whether Clear of an invalid message panics)
+NilRd(M) == LET r == RdOpsAt(M, <<>>, 0) IN [j \in 1..Len(r) |-> W(r[j], "via", "get")]
+NilOps(M) == NilRd(M) \o SelectSeq(WrOps(M, <<>>, 0), LAMBDA o : o.op # "Clear")
+NilLine(M) == [t |-> M, ops |-> NilOps(M), rets |-> [j \in 1..Len(NilOps(M)) |-> ApplyNil(S, M, NilOps(M)[j])]]
+
 Init == /\ val = EmptyMsg
         /\ path = <<>>
         /\ (Export => PrintT("OPS " \o ToJson(Ops)))
         /\ (Export => PrintT("RDOPS " \o ToJson(RdOps)))
+        /\ (Export => \A M \in DOMAIN S : PrintT("NIL " \o ToJson(NilLine(M))))
 
 Spec == Init /\ [][Next]_vars
 View == val
